@@ -30,9 +30,11 @@ int vnaproperty_delete(vnaproperty_t **rootptr, const char *format, ...)
 #define N_APPLY 2		/* frequencies given to apply */
 #endif
 #define NP 2			/* 2x2 calibration */
-#define CAL_F 3			/* calibration frequencies */
+#ifndef CAL_F
+#define CAL_F 3			/* calibration frequencies (0: a calibration solved at no frequency) */
+#endif
 
-static const double cal_f[CAL_F] = { 1.0e9, 2.0e9, 3.0e9 };
+static const double cal_f[3] = { 1.0e9, 2.0e9, 3.0e9 };
 static double apply_f[3] = { 1.0e9, 1.5e9, 3.0e9 };
 static const vnacal_calibration_t *ghost_calp;
 static int ghost_rfi_calls, ghost_kernel_calls, ghost_kernel_kind[4];
@@ -167,6 +169,14 @@ void h_apply_frame(void)
 	CHECK(ghost_kernel_calls == 0 && ghost_rfi_calls == 0, "nothing is computed for an empty request");
 	free(none);
     }
+#elif CAL_F == 0
+    /* a calibration without frequencies covers no frequency: refused, and its empty vector is not read for the message */
+    rc = vnacal_apply_m(vcp, ci, apply_f, N_APPLY, m, NP, NP, vdp);
+    REACH("apply to an empty calibration returned");
+    CHECK(rc == -1 && ghost_err_calls == 1 && ghost_err_category == VNAERR_USAGE && errno == EINVAL,
+	    "a request outside the (empty) calibration range is refused once as a usage error");
+    CHECK(ghost_kernel_calls == 0 && ghost_rfi_calls == 0, "nothing is computed");
+    (void)bad_det; (void)terms; (void)is_t;
 #else
     rc = vnacal_apply_m(vcp, ci, apply_f, N_APPLY, m, NP, NP, vdp);
     REACH("apply returned");
